@@ -78,7 +78,7 @@ func c15Domain(tier string) []gv {
 		if tier == "quick" {
 			// quick: a representative subset per kind (still every kind, still the edges)
 			keep := map[string]bool{k.lo: true, k.hi: true, "0": true, "1": true, "-1": true, "10": true, "9": true,
-				"9007199254740993": true}
+				"9007199254740993": true, "9007199254740992": true, "-9007199254740993": true}
 			var v2 []string
 			for _, v := range vals {
 				if keep[v] {
